@@ -65,4 +65,25 @@ func init() {
 	reg(&HarnessSpec{Prop: "C19", Name: "C19IdentMatchers",
 		What:   "real IdentMatcher/NameMatcher/FieldConverter/LiteralSetter/Options.CompareFieldName with symbolic pattern and identifier: equality resp. Unicode simple-fold equality; :conv always case-sensitive; path splitting at '.' lossless",
 		Bounds: "pattern, identifier <= 3 code points, other <= 2, all of Sigma", Assumes: []string{aSigma}})
+
+	// ---------------------------------------------------------------- C11 / C13 / C17 text kernels
+	aVec := "text pieces are symbolic ASCII byte vectors (bytes 1..127) of case-split length; markers are two pairs of concrete 21-byte strings over the nanoid alphabet; assumed: the text around the markers contains no 'M'/'N' (i.e. a marker occurs in the printed base code only where it was planted)"
+	for _, pr := range []string{"C11", "C13", "C17"} {
+		reg(&HarnessSpec{Prop: pr, Name: "C11MarkerSubstitution", Replay: "none",
+			What:    "real Generate/generateContent (+FuncToString) on base code pre++marker1++mid[++marker2++post] with 0..2 functions per block and the FunctionBlocks in either order: content = header++pre++block1++mid[++block2++post] (every block at its own marker, exactly its functions in order, nothing else changed, no marker left) and identical for two different marker pairs",
+			Bounds:  "pre/mid/post <= 2 bytes each; 1..2 blocks; 0..2 functions per block",
+			Assumes: []string{aVec, aEnv}})
+	}
+	reg(&HarnessSpec{Prop: "C11", Name: "C11ExtractComments", Replay: "none",
+		What:    "real util.ExtractMatchComments/MatchComments/ToTextList on comment groups of 0..5 comments with symbolic texts and an arbitrary (uninterpreted) match outcome per text: removed = the matching comments in order, group keeps the others in order (same objects), nil/empty groups untouched",
+		Bounds:  "0..5 comments; texts <= 8 bytes (SMT strings); match outcome = uninterpreted predicate of the text",
+		Assumes: []string{"which texts match is decided separately (regular expressions of C11 are environment, their membership is uninterpreted here)"}})
+	reg(&HarnessSpec{Prop: "C13", Name: "C13ImportTable", MapOrder: true,
+		CrossPath: []string{"LookupName", "LookupName.ok", "LookupPath", "LookupPath.ok", "LookupPath.q", "LookupPath.q.ok"},
+		What:      "real util.NewImportNames/LookupName/LookupPath on 2 import specs with arbitrary paths (3 directory shapes x arbitrary one-letter last element) and name forms (none, _, ., arbitrary letter), every map iteration order at every single range site: assertions (name of path, path of name) on each path and cross-path equality of all lookup results for jointly satisfiable inputs",
+		Bounds:    "2 imports (quick) / 3 (thorough); one permuted range site per path (all permutations at that site)",
+		Assumes:   []string{"import tables of valid Go files: paths pairwise distinct; bound names pairwise distinct except _ and ."}})
+	reg(&HarnessSpec{Prop: "C13", Name: "C13ImportTable3", Tier: "thorough", MapOrder: true,
+		CrossPath: []string{"LookupName", "LookupPath", "LookupPath.q"},
+		What:      "C13ImportTable with 3 imports", Bounds: "3 imports", Assumes: []string{"as C13ImportTable"}})
 }
